@@ -1,29 +1,46 @@
 """C09 — CSV files with comment headers round-trip through write_csv / read_csv.
 
-Model: lean/HydroVerif/Model/C09.lean (header writer, reader strip, _header2comment, file-name / member
-resolution); theorems: lean/HydroVerif/Props/C09.lean.
-Correspondence: (1) `_csvhead` lines and the comment dictionary obtained from them by the reader's regex strip
-+ `_header2comment`, against the model's `csvhead` / `readHeader` (the system lines - time stamp, author,
-python version ... - are taken from the real header and given to the model as opaque lines);
-(2) `_header2comment` on arbitrary generated header elements; (3) `_check_name` against `checkName` on
-directories holding arbitrary subsets of candidate files; (4) end-to-end: which file `write_csv` creates and
-which zip member it stores, which file `read_csv` then opens, against `writeTarget` / `readTarget`.
-Oracle (real code only, end-to-end in a scratch directory under build/): the frame read back has the same
-column names, row count, equal non-empty text and numeric values to the float format precision; the
-comment dictionary returns every supplied comment, nrow and ncol.
-Cases: keys = lower-case letters/digits/underscore/dash, 1..25 characters (system keys nrow, ncol,
-time_generated, author, source_file, work_dir, python_* , pandas_version, numpy_version are reserved; keys with
-blanks are rewritten with underscores by the reader by design and are not generated for the oracle); values =
-single-line printable text with colons, hashes, commas, quotes, trimmed, without a run of 10 dashes; storage
-modes plain .csv, compress=True under x.csv / x.zip / x / x.y.csv, archive member in a sub-folder; float
-formats %0.5f %0.2f %0.8e; float, int and text columns. Non-trivial = round trip performed and compared.
+Model: lean/HydroVerif/Model/C09.lean (header writer with every kind of comment argument and the system pairs, reader strip,
+_header2comment, record writer / tokeniser, whole-file text, file-name / member resolution), Model/C09Num.lean (number
+formatting `%0.Nf` / `%0.Ne` / str(int) and decimal parsing over exact rationals), Model/C09Fs.lean (directory and archive state
+machines); theorems: lean/HydroVerif/Props/C09.lean.
+Correspondence: (1) `_csvhead` lines - for str / list / tuple / dict comments, with and without system information - and the
+comment dictionary obtained from them by the reader's regex strip + `_header2comment`, against `csvheadFull` / `readHeader`
+(only the time stamp is taken from the real header); (2) `_header2comment` on arbitrary generated header elements;
+(3) `_check_name` against `checkName` on directories holding arbitrary subsets of candidate files; (4) end-to-end: which file
+`write_csv` creates and which zip member it stores, which file `read_csv` then opens (`writeTarget` / `readTarget`), the column
+line, sampled records, every numeric cell of those records (text written = model's formatting of the exact value; value read =
+double next to the model's reading of the text) and the whole file through `readFile` / `writeFile`; (7) number formatting on
+ties, carries, zeros of both signs, subnormal and huge magnitudes, 64-bit integers; (8) random directory histories (writes in
+both storage modes under names sharing a stem, refused writes, reads) against `run`; (9) random archive histories against `arun`.
+Oracle (real code only, in a scratch directory under build/): the frame read back has the same column names, row count, equal
+non-empty text, exactly equal integers (compared as python integers) and float values to the float format precision; the
+comment dictionary returns every supplied comment, nrow and ncol, and no key that was not supplied. It runs on single
+write -> read pairs (4), on archives with several members (5), on SESSIONS (6): several writes and reads in one process where
+frames are fresh or derived from a frame read_csv returned earlier, comment dictionaries are fresh / re-used / modified, names are
+new or re-used and refused calls are interleaved, and on directory histories (8) wherever the theorems say the frame just
+written must come back.
+Cases: keys = lower-case letters/digits/underscore/dash (runs of dashes included), 1..25 characters (the 12 keys the header
+uses itself are reserved; keys with blanks are rewritten with underscores by the reader by design: both only in the wild
+correspondence stream); values = single-line printable text with colons, hashes, commas, quotes, runs of dashes, trimmed (blank
+and untrimmed values only in the wild stream); storage modes plain .csv, compress=True under x.csv / x.zip / x / x.y.csv,
+archive member in a sub-folder; float formats %0.5f %0.2f %0.8e %0.10f %0.7f; float64 / float32, integer columns of every width
+and signedness with values up to the ends of the 64-bit ranges, text columns, in any mixture (purely numeric, purely integer and
+purely text frames have their own share); column names of letters, digits, blanks (also at the ends of a name), dash and
+underscore. corpus/C09/*.json (big integers next to floats, int64 with uint64, runs of dashes, outer blanks in names, a frame
+derived from a frame read back, rounding ties, exponent format ...) is replayed first in three storage modes whatever the seed.
+Non-trivial = round trip performed and compared.
 """
+import csv as pycsv
+import json
+import math
 import os
 import re
 import shutil
 import string
 import warnings
 import zipfile
+from fractions import Fraction
 from pathlib import Path
 
 import numpy as np
@@ -63,9 +80,9 @@ def gen_key(rng, wild=False):
     while True:
         n = rng.choice([1, 2, 5, 10, 24, 25]) if rng.random() < 0.5 else rng.randint(1, 25)
         k = "".join(rng.choice(alpha) for _ in range(n)).strip()
-        if k and k.replace(":", "").lower() not in RESERVED and not re.match(r"comment_\d\d$", k) and "-" * 10 not in k:
-            if wild and (k.replace(":", "").strip() == ""):
-                continue
+        if rng.random() < 0.04:
+            k = (k[:3] + "-" * rng.choice([10, 12]) + k[3:6])[:25]      # a run of dashes is part of the alphabet
+        if k and k.replace(":", "").lower() not in RESERVED and not re.match(r"comment_\d\d$", k):
             return k
 
 
@@ -74,63 +91,107 @@ def gen_val(rng, wild=False):
     while True:
         n = rng.choice([1, 3, 12, 40])
         v = "".join(rng.choice(pool) for _ in range(n)).strip()
-        if wild and rng.random() < 0.1:
-            v = v + "-" * 10 + "x"
-        if v and (wild or "-" * 10 not in v):
+        if rng.random() < 0.08:
+            # runs of dashes (separators, ranges, a value that is nothing but a dashed line) are single-line text like any other
+            v = rng.choice([v + "-" * 10 + "x", "-" * rng.choice([10, 30, 50]), v[:3] + " " + "-" * 12, "-" * 10 + " " + v]).strip()
+        if v:
             return v
 
 
+def comment_signature(prefix, k, v):
+    """a comment lost because its line holds a run of ten dashes is the defect repaired by the fix: commit 0d5e115"""
+    return prefix + ("/dash_run_comment_dropped" if "-" * 10 in f"{k} : {v}" else "/comment_not_returned")
+
+
 def body(ctx):
+    work = C.BUILD / f"c09-work-{ctx.seed}-{ctx.tier}-{os.getpid()}"   # per process: two runs of this check may overlap
+    shutil.rmtree(work, ignore_errors=True)
+    work.mkdir(parents=True)
+    try:
+        _body(ctx, work)
+    finally:
+        shutil.rmtree(work, ignore_errors=True)      # also when the code under test raised where no call was expected to fail
+
+
+def _body(ctx, work):
     warnings.simplefilter("ignore")
     import pandas as pd
     from hydrodiy.io import csv
     rng = ctx.rng
     lean = ctx.lean
     reqs, checks = [], []
-    work = C.BUILD / f"c09-work-{ctx.seed}-{ctx.tier}-{os.getpid()}"   # per process: two runs of this check may overlap
-    shutil.rmtree(work, ignore_errors=True)
-    work.mkdir(parents=True)
     src = work / "script.py"
     src.write_text("")
     strip_re = "^# *|\n$"
 
-    # ---------------- (1) header writer + reader on dictionaries
+    # ---------------- (1) header writer + reader: every kind of `comment` argument, every system line
+    import getpass
+    import sys as _sys
+    try:
+        login = getpass.getuser()
+    except Exception:  # noqa
+        login = None
+    sysvals = [os.getcwd(), os.name, _sys.version.replace("\n", " "), pd.__version__, np.__version__]
+    if csv.HAS_DISTUTILS:
+        sysvals += [csv.get_python_inc(), csv.get_python_lib()]
+
+    def opt(s):
+        return "-" if s is None else "[" + enc(s) + "]"
+
     for it in range(ctx.scale(500, 5000)):
-        wild = rng.random() < 0.25
+        wild = rng.random() < 0.3
+        kind = "dict" if rng.random() < 0.8 else rng.choice(["str", "list", "tuple"])
         nk = rng.randint(0, 5)
         comment = {}
-        for _ in range(nk):
-            k, v = gen_key(rng, wild), gen_val(rng, wild)
-            if rng.random() < 0.2:
-                # the value quotes its own key followed by the separator (e.g. "id": "grid : 5 km")
-                v = (gen_val(rng) + " " + rng.choice([k, k[-2:], k + " "]) + rng.choice([" : ", ": ", " :"]) + gen_val(rng)).strip()
-                if "-" * 10 in v and not wild:
-                    v = gen_val(rng)
-            comment[k] = v
-        if wild:
-            normal = {}
-            for k in comment:
-                normal.setdefault(re.sub(":", "", k).lower(), k)
-            if len(normal) != len(comment):
-                continue
+        if kind == "dict":
+            for _ in range(nk):
+                k, v = gen_key(rng, wild), gen_val(rng, wild)
+                if rng.random() < 0.2:
+                    # the value quotes its own key followed by the separator (e.g. "id": "grid : 5 km")
+                    v = (gen_val(rng) + " " + rng.choice([k, k[-2:], k + " "]) + rng.choice([" : ", ": ", " :"]) + gen_val(rng)).strip()
+                if wild and rng.random() < 0.15:
+                    # excluded points of the theorems, probed on the real code through the correspondence: keys the header
+                    # uses itself (the caller's value then competes with the recorded one) ...
+                    k = rng.choice(sorted(RESERVED))
+                if wild and rng.random() < 0.2:
+                    # ... and values that are blank or carry outer blanks (returned trimmed / not at all)
+                    v = rng.choice(["", " ", "   ", " " + v, v + "  ", "\t" + v, " " + v + " "])
+                comment[k] = v
+            arg, keys, vals = comment, list(comment.keys()), list(comment.values())
+        elif kind == "str":
+            arg = gen_val(rng, wild)
+            keys, vals = [], [arg]
+        else:
+            items = [gen_val(rng, wild) for _ in range(rng.choice([0, 1, 2, 3, 11, 12, 101]) if rng.random() < 0.3 else rng.randint(0, 4))]
+            arg, keys, vals = (items if kind == "list" else tuple(items)), [], items
         nrow, ncol = rng.randint(0, 10 ** rng.randint(0, 6)), rng.randint(0, 50)
         sysinfo = rng.random() < 0.5
-        head = csv._csvhead(nrow, ncol, comment, source_file=src, write_sys_info=sysinfo, author=rng.choice([None, "me", "a b"]))
-        system = head[3 + len(comment):-1]
+        author = rng.choice([None, "me", "a b"])
+        head = csv._csvhead(nrow, ncol, arg, source_file=src, write_sys_info=sysinfo, author=author)
+        time_line = [l for l in head if l.startswith("# time_generated : ")][-1]      # the system line comes after the comments
+        stamp = time_line[len("# time_generated : "):]
         header = [re.sub(strip_re, "", l + "\n") for l in head]
         cdict = csv._header2comment(header)
-        keys = list(comment.keys())
-        reqs.append(f"hdr {nrow} {ncol} {encs(keys)} {encs([comment[k] for k in keys])} {encs(system)}")
-        checks.append(("hdr", (head, list(cdict.keys()), list(cdict.values())), {"comment": comment, "nrow": nrow, "ncol": ncol, "sysinfo": sysinfo}))
-        ctx.count(("hdr", tuple(comment.items()), nrow, ncol, sysinfo), nk > 0, "hdr/" + ("wild" if wild else "admissible"),
-                  sample={"comment": comment, "nrow": nrow, "ncol": ncol})
-        if not wild:
+        reqs.append(f"hdrf {nrow} {ncol} {'list' if kind == 'tuple' else kind} {encs(keys)} {encs(vals)} [{enc(stamp)}] {opt(author)} "
+                    f"{1 if sysinfo else 0} {opt(login)} [{enc(str(src))}] [{enc(src.name)}] {encs(sysvals) if sysinfo else '[]'}")
+        checks.append(("hdr", (head, list(cdict.keys()), list(cdict.values())), {"comment": arg, "nrow": nrow, "ncol": ncol, "sysinfo": sysinfo, "author": author}))
+        if kind == "dict":
+            # the older entry of the model (system lines handed over as opaque lines)
+            ncom = len({re.sub(":", "", k).lower() for k in comment})
+            reqs.append(f"hdr {nrow} {ncol} {encs(keys)} {encs(vals)} {encs(head[3 + ncom:-1])}")
+            checks.append(("hdr", (head, list(cdict.keys()), list(cdict.values())), {"comment": comment, "nrow": nrow, "ncol": ncol, "sysinfo": sysinfo}))
+        ctx.count(("hdr", kind, tuple(keys), tuple(vals), nrow, ncol, sysinfo), len(vals) > 0, "hdr/" + kind + "/" + ("wild" if wild else "admissible"),
+                  sample={"comment": arg, "nrow": nrow, "ncol": ncol} if kind == "dict" else None)
+        if not wild and kind == "dict":
             for k, v in comment.items():
                 if cdict.get(k) != v:
-                    ctx.finding("header/comment_not_returned", "a supplied header comment does not come back unchanged",
+                    ctx.finding(comment_signature("header", k, v), "a supplied header comment does not come back unchanged",
                                 {"comment": comment, "key": k, "got": cdict.get(k), "sysinfo": sysinfo})
             if cdict.get("nrow") != str(nrow) or cdict.get("ncol") != str(ncol):
                 ctx.finding("header/nrow_ncol_not_returned", "recorded nrow/ncol do not come back", {"nrow": nrow, "ncol": ncol, "got": [cdict.get("nrow"), cdict.get("ncol")]})
+            stray = sorted(k for k in cdict if k not in comment and k not in RESERVED)
+            if stray:
+                ctx.finding("header/comment_not_supplied", "the comment dictionary holds keys that were not supplied", {"comment": comment, "stray_keys": stray[:5]})
 
     # ---------------- (2) _header2comment on arbitrary elements
     for it in range(ctx.scale(500, 5000)):
@@ -177,12 +238,44 @@ def body(ctx):
     # ---------------- (4) end to end
     fmts = ["%0.5f", "%0.2f", "%0.8e", "%0.10f", "%0.7f"]
     e2e = work / "e2e"
-    for it in range(ctx.scale(150, 1500)):
-        shutil.rmtree(e2e, ignore_errors=True)
-        e2e.mkdir()
-        nrow = rng.choice([1, 2, 5, 30])
-        cols = {}
-        ncolumns = rng.randint(1, 5)
+    INT_EDGES = [-999, -9999, -99, 9999, -1, 0, 2 ** 31, -2 ** 40]
+    # integers that no float64 holds (any detour of an integer column through floating point changes them), the ends of the
+    # 64-bit ranges, and their neighbours
+    INT_BIG = [2 ** 53 + 1, -(2 ** 53 + 1), 2 ** 53 - 1, 2 ** 62 + 1, -(2 ** 62) - 3, 2 ** 63 - 1, -2 ** 63, 10 ** 18 + 7, 123456789012345679]
+    INT_DTYPES = {"int64": (-2 ** 63, 2 ** 63 - 1), "uint64": (0, 2 ** 64 - 1), "int32": (-2 ** 31, 2 ** 31 - 1), "int16": (-2 ** 15, 2 ** 15 - 1),
+                  "int8": (-128, 127), "uint8": (0, 255), "uint32": (0, 2 ** 32 - 1)}
+
+    def gen_column(kind, nrow):
+        """-> (values as python objects, numpy dtype name or None for text)"""
+        if kind == "float":
+            vals = [rng.choice([1, -1]) * 10 ** rng.uniform(-9, 6) * rng.random() for _ in range(nrow)]
+            if rng.random() < 0.3:
+                # values that look like conventional "missing data" codes are data like any other
+                vals[rng.randrange(nrow)] = rng.choice([-999.0, -9999.0, -99.0, -999.000001, 9999.0, -1.0, 0.0, 1e30, -1e-30])
+            dt = "float32" if rng.random() < 0.15 else "float64"
+            if dt == "float32":
+                vals = [float(np.float32(v)) for v in vals]
+            return vals, dt
+        if kind == "int":
+            dt = rng.choice(["int64"] * 6 + ["uint64", "uint64", "int32", "int16", "int8", "uint8", "uint32"])
+            lo, hi = INT_DTYPES[dt]
+            vals = [rng.randint(max(lo, -10 ** 6), min(hi, 10 ** 6)) for _ in range(nrow)]
+            r = rng.random()
+            if r < 0.3:
+                vals[rng.randrange(nrow)] = min(hi, max(lo, rng.choice(INT_EDGES)))
+            elif r < 0.6:
+                # full-width values: 64-bit identifiers / counters, and the ends of the dtype's own range
+                for _ in range(rng.randint(1, 2)):
+                    vals[rng.randrange(nrow)] = min(hi, max(lo, rng.choice(INT_BIG + [lo, hi, hi - 1])))
+            return vals, dt
+        return [rng.choice(["t", "t", "#", "#1 ", "x:"]) + "".join(rng.choice(string.ascii_letters + ' ,":#;') for _ in range(rng.randint(1, 6))) + "z"
+                for _ in range(nrow)], None
+
+    def gen_frame(nrow=None, ncolumns=None):
+        """-> (DataFrame, column names); columns are float / integer (of any width and signedness) / text, in any mixture:
+        a share of the frames is purely numeric, a share purely text"""
+        nrow = nrow or rng.choice([1, 2, 5, 30])
+        ncolumns = ncolumns or rng.randint(1, 5)
         colnames = []
         while len(colnames) < ncolumns:
             if rng.random() < 0.2:
@@ -190,51 +283,161 @@ def body(ctx):
                 cn = rng.choice(["2019", "2020", "7", "007", "10", "1_2", "3-4", "42 a"])
             else:
                 cn = "".join(rng.choice(string.ascii_letters + string.digits + " -_") for _ in range(rng.randint(1, 8))).strip()
+            if cn and rng.random() < 0.08:
+                cn = rng.choice([" " + cn, cn + " ", " " + cn + "  "])       # blanks belong to the alphabet, also at the ends of a name
             if cn and cn not in colnames:
                 colnames.append(cn)
+        mix = rng.choice(["any", "any", "any", "numeric", "numeric", "ints", "text"])
+        kinds = {"any": ["float", "int", "text"], "numeric": ["float", "int"], "ints": ["int"], "text": ["text"]}[mix]
+        data = {}
         for cn in colnames:
-            kind = rng.choice(["float", "int", "text"])
-            if kind == "float":
-                cols[cn] = [rng.choice([1, -1]) * 10 ** rng.uniform(-9, 6) * rng.random() for _ in range(nrow)]
-                if rng.random() < 0.3:
-                    # values that look like conventional "missing data" codes are data like any other
-                    cols[cn][rng.randrange(nrow)] = rng.choice([-999.0, -9999.0, -99.0, -999.000001, 9999.0, -1.0, 0.0, 1e30, -1e-30])
-            elif kind == "int":
-                cols[cn] = [rng.randint(-10 ** 6, 10 ** 6) for _ in range(nrow)]
-                if rng.random() < 0.3:
-                    cols[cn][rng.randrange(nrow)] = rng.choice([-999, -9999, -99, 9999, -1, 0, 2 ** 31, -2 ** 40])
-            else:
-                cols[cn] = [rng.choice(["t", "t", "#", "#1 ", "x:"]) + "".join(rng.choice(string.ascii_letters + ' ,":#;') for _ in range(rng.randint(1, 6))) + "z" for _ in range(nrow)]
-        df = pd.DataFrame(cols)
-        # frames with a history: the index is no longer the default row counter (selection, sorting, reversal, a date or
-        # text index); it is not written (write_index=False) and must not leak into the columns
+            vals, dt = gen_column(rng.choice(kinds), nrow)
+            data[cn] = np.array(vals, dtype=dt) if dt else np.array(vals, dtype=object)
+        return pd.DataFrame(data), colnames
+
+    def expected_of(df):
+        """what the frame handed to write_csv holds, as python values per column, and the kind of each column"""
+        cols, kinds = {}, {}
+        for cn in df.columns:
+            k = df[cn].dtype.kind if isinstance(df[cn].dtype, np.dtype) else "O"
+            kinds[cn] = "float" if k == "f" else ("int" if k in "iu" else "text")
+            cols[cn] = [v.item() if hasattr(v, "item") else v for v in df[cn].values]
+        return cols, kinds
+
+    def oracle(case, df, comment, ff, df2, c2):
+        """the property on one write -> read pair: `df`, `comment`, `ff` are what the caller handed to write_csv, (df2, c2) is what
+        read_csv returned. Returns True when names and row count are right (the body correspondence needs that)."""
+        colnames, nrow = [str(c) for c in df.columns], len(df)
+        cols, kinds = expected_of(df)
+        shape_ok = list(df2.columns) == colnames and len(df2) == nrow
+        if not shape_ok:
+            got = [str(c) for c in df2.columns]
+            # the defect repaired by the second fix: commit of round 7 (blanks at the outer ends of the column line were removed)
+            ends_trimmed = [colnames[0].strip()] if len(colnames) == 1 else [colnames[0].lstrip()] + colnames[1:-1] + [colnames[-1].rstrip()]
+            trimmed = len(df2) == nrow and list(df2.columns) == ends_trimmed and ends_trimmed != colnames
+            ctx.finding("e2e/column_name_outer_blank_lost" if trimmed else "e2e/shape_or_names", "column names or row count changed in the round trip",
+                        {**case, "columns": colnames, "got_columns": got, "got_rows": len(df2)})
+        else:
+            digits = int(re.search(r"\.(\d+)", ff).group(1))
+            for cn in colnames:
+                a, b = df[cn].values, df2[cn].values
+                if kinds[cn] == "text":
+                    # a text column whose every value reads as a number is not text to any csv reader (type inference is pandas'):
+                    # only columns holding at least one value that is not a number are compared
+                    if list(a) != list(b) and not all(isinstance(x, str) and re.fullmatch(r"\s*[-+]?(\d+\.?\d*|\.\d+)([eE][-+]?\d+)?\s*", x) for x in a):
+                        ctx.finding("e2e/text_changed", "text values changed in the round trip", {**case, "column": cn, "wrote": list(a)[:3], "read": list(b)[:3]})
+                elif kinds[cn] == "int":
+                    # exact, as python integers (no numpy promotion of int64 / uint64 pairs in the comparison itself)
+                    got = [v.item() if hasattr(v, "item") else v for v in b]
+                    if got != cols[cn] or any(isinstance(v, float) for v in got):
+                        bad = [i for i, (x, y) in enumerate(zip(cols[cn], got)) if x != y or isinstance(y, float)][:3]
+                        ctx.finding("e2e/int_changed", "integer values changed in the round trip",
+                                    {**case, "column": cn, "dtype": str(a.dtype), "wrote": [str(cols[cn][i]) for i in bad], "read": [str(got[i]) for i in bad],
+                                     "dtypes": {c: str(df[c].dtype) for c in colnames}})
+                else:
+                    a = np.asarray(a, dtype=float)
+                    b = np.asarray(b, dtype=float)
+                    tol = 0.5000001 * 10.0 ** (-digits) * (np.maximum(1.0, 10.0 ** np.floor(np.log10(np.abs(a) + 1e-300))) if ff.endswith("e") else 1.0)
+                    tol = tol + 4 * np.spacing(np.abs(a))   # the decimal text is read back to the nearest double
+                    if not np.all(np.abs(a - b) <= tol):
+                        ctx.finding("e2e/float_precision", "numeric values differ by more than the float format precision", {**case, "column": cn, "wrote": a[:3].tolist(), "read": b[:3].tolist()})
+        for k, v in comment.items():
+            if c2.get(k) != v:
+                ctx.finding(comment_signature("e2e", k, v), "a supplied header comment does not come back unchanged", {**case, "key": k, "got": c2.get(k)})
+        # nothing but the caller's comments, the counts and the system information comes back: a key supplied to an
+        # EARLIER call in this process (or any other stray key) is a header comment the caller did not supply for this file
+        stray = sorted(k for k in c2 if k not in comment and k not in RESERVED and not re.fullmatch(r"comment_\d+", k))
+        if stray:
+            ctx.finding("e2e/comment_not_supplied", "the comment dictionary holds keys that were not supplied for this file",
+                        {**case, "stray_keys": stray[:5], "values": [c2[k] for k in stray[:5]]})
+        if c2.get("nrow") != str(nrow) or c2.get("ncol") != str(len(colnames)):
+            ctx.finding("e2e/nrow_ncol", "recorded nrow/ncol are not returned", {**case, "shape_written": [nrow, len(colnames)], "got": [c2.get("nrow"), c2.get("ncol")]})
+        return shape_ok
+
+    def body_correspondence(case, df, df2, raw, c2):
+        """the table body through the model: the column-name line as the reader splits it, records tokenised by the model
+        against what the real reader returned, and the model's writer against the written text"""
+        nrow, colnames = len(df), [str(c) for c in df.columns]
+        _, kinds = expected_of(df)
+        lines = raw.split("\n")
+        nh = 0
+        while nh < len(lines) and lines[nh].startswith("#"):
+            nh += 1
+        colline, blines = lines[nh], lines[nh + 1: nh + 1 + nrow]
+        reqs.append(f"cols [{enc(colline + chr(10))}]")
+        checks.append(("cols", list(df2.columns), {**case, "line": colline}))
+        for r in sorted(rng.sample(range(nrow), min(nrow, 3))):
+            got = []
+            for cn in colnames:
+                v = df2[cn].values[r]
+                got.append(("t", str(v)) if kinds[cn] == "text" else (("i", int(v)) if kinds[cn] == "int" else ("n", float(v))))
+            reqs.append(f"parse [{enc(blines[r])}]")
+            checks.append(("parse", got, {**case, "line": blines[r], "row": r}))
+            ctx.count(("body", blines[r]), any(ch in blines[r] for ch in '"'), "body/" + ("quoted" if '"' in blines[r] else "plain"))
+            # numeric cells: the text written against the model's formatting of the exact value of the number handed to
+            # write_csv, and the number read back against the exact value of that text
+            fields = next(pycsv.reader([blines[r]]))
+            if len(fields) == len(colnames):
+                for cn, ftxt in zip(colnames, fields):
+                    if kinds[cn] == "text":
+                        continue
+                    x = df[cn].values[r].item()
+                    back = df2[cn].values[r].item()
+                    if kinds[cn] == "int":
+                        reqs.append(f"fmti {x}")
+                        checks.append(("fmt", ftxt, {**case, "column": cn, "value": str(x)}))
+                        reqs.append(f"pint [{enc(ftxt)}]")
+                        checks.append(("pint", back, {**case, "column": cn, "text": ftxt}))
+                    else:
+                        num, den = abs(x).as_integer_ratio()
+                        neg = 1 if math.copysign(1.0, x) < 0 else 0
+                        digits = int(re.search(r"\.(\d+)", case["float_format"]).group(1))
+                        reqs.append(f"{'fmte' if case['float_format'].endswith('e') else 'fmtf'} {digits} {neg} {num} {den}")
+                        checks.append(("fmt", ftxt, {**case, "column": cn, "value": x.hex()}))
+                        reqs.append(f"pnum [{enc(ftxt)}]")
+                        checks.append(("pnum", back, {**case, "column": cn, "text": ftxt}))
+                    ctx.count(("cell", cn, ftxt), True, "body/cell/" + kinds[cn])
+        # the file as a whole through the model's reader: comment dictionary (all of it, in order), names, every record
+        if nrow <= 30 and "\r" not in raw:
+            allrows = []
+            for r in range(nrow):
+                allrows.append([("t", str(df2[cn].values[r])) if kinds[cn] == "text" else (("i", int(df2[cn].values[r])) if kinds[cn] == "int" else ("n", float(df2[cn].values[r])))
+                                for cn in colnames])
+            reqs.append(f"rfile [{enc(raw)}]")
+            checks.append(("rfile", (list(c2.keys()), list(c2.values()), [str(c) for c in df2.columns], allrows), {**case, "text": raw}))
+            ctx.count(("file", raw), True, "file/read+write")
+
+    def derive(df):
+        """a frame with a history: the index is no longer the default row counter (selection, sorting, reversal, a date or
+        text index); it is not written (write_index=False) and must not leak into the columns"""
+        nrow, colnames = len(df), list(df.columns)
         hist = rng.choice(["fresh", "fresh", "selected", "sorted", "reversed", "dates", "labels"])
-        if hist != "fresh":
-            big = pd.DataFrame({cn: (list(v) + list(v))[:nrow * 2] for cn, v in cols.items()})
-            if hist == "selected":
-                keep = sorted(rng.sample(range(2 * nrow), nrow))
-                df = big.iloc[[i in keep for i in range(2 * nrow)]]
-            elif hist == "sorted":
-                df = df.sort_values(colnames[0], kind="stable", ascending=False)
-            elif hist == "reversed":
-                df = df.iloc[::-1]
-            elif hist == "dates":
-                df = df.set_axis(pd.date_range("2001-01-01", periods=nrow, freq="D"), axis=0)
-            else:
-                df = df.set_axis([f"r{i}" for i in range(nrow)], axis=0)
-            cols = {cn: list(df[cn].values) for cn in colnames}
-            cols = {cn: [v.item() if hasattr(v, "item") else v for v in vals] for cn, vals in cols.items()}
-        comment = {gen_key(rng): gen_val(rng) for _ in range(rng.randint(0, 3))}
-        mode = rng.choice(["plain", "zip.csv", "zip.zip", "zip.noext", "zip.dots", "archive"])
-        ff = rng.choice(fmts)
-        base = rng.choice(["data", "d_1", "Run-A"])
-        fname = {"plain": base + ".csv", "zip.csv": base + ".csv", "zip.zip": base + ".zip", "zip.noext": base,
-                 "zip.dots": base + ".v2.csv", "archive": "sub/folder/" + base + ".csv"}[mode]
-        case = {"mode": mode, "name": fname, "float_format": ff, "comment": comment, "columns": colnames, "nrow": nrow, "frame_history": hist}
+        if hist == "selected":
+            big = pd.concat([df, df], ignore_index=True)
+            keep = set(rng.sample(range(2 * nrow), nrow))
+            df = big.iloc[[i in keep for i in range(2 * nrow)]]
+        elif hist == "sorted":
+            df = df.sort_values(colnames[0], kind="stable", ascending=False)
+        elif hist == "reversed":
+            df = df.iloc[::-1]
+        elif hist == "dates":
+            df = df.set_axis(pd.date_range("2001-01-01", periods=nrow, freq="D"), axis=0)
+        elif hist == "labels":
+            df = df.set_axis([f"r{i}" for i in range(nrow)], axis=0)
+        return df, hist
+
+    def run_e2e(it, df, comment, mode, ff, fname, hist, sysinfo):
+        """one write -> read pair in a fresh directory: name / member correspondence, oracle, body correspondence. Returns the
+        frame read back (None when it could not be read)"""
+        shutil.rmtree(e2e, ignore_errors=True)
+        e2e.mkdir()
+        colnames, nrow = [str(c) for c in df.columns], len(df)
+        case = {"mode": mode, "name": fname, "float_format": ff, "comment": comment, "columns": colnames, "nrow": nrow, "frame_history": hist,
+                "dtypes": [str(df[c].dtype) for c in df.columns]}
         try:
             if mode == "archive":
                 with zipfile.ZipFile(e2e / "arc.zip", "w") as arc:
-                    csv.write_csv(df, fname, comment, src, archive=arc, float_format=ff, write_sys_info=rng.random() < 0.5)
+                    csv.write_csv(df, fname, comment, src, archive=arc, float_format=ff, write_sys_info=sysinfo)
                 with zipfile.ZipFile(e2e / "arc.zip", "r") as arc:
                     members = arc.namelist()
                     df2, c2 = csv.read_csv(fname, archive=arc)
@@ -243,7 +446,7 @@ def body(ctx):
                     ctx.finding("e2e/archive_member", "archive member is not stored under the given name", {**case, "members": members})
             else:
                 compress = mode != "plain"
-                csv.write_csv(df, e2e / fname, comment, src, compress=compress, float_format=ff, write_sys_info=rng.random() < 0.5)
+                csv.write_csv(df, e2e / fname, comment, src, compress=compress, float_format=ff, write_sys_info=sysinfo)
                 created = sorted(p.name for p in e2e.iterdir())
                 member = "-"
                 if compress and len(created) == 1 and zipfile.is_zipfile(e2e / created[0]):
@@ -264,58 +467,47 @@ def body(ctx):
             ctx.finding(f"e2e/{mode}/cannot_read_back", "a file written by write_csv cannot be read back by read_csv",
                         {**case, "error": f"{type(e).__name__}: {e}"[:300]})
             ctx.count(("e2e", it), False, "e2e/" + mode)
-            continue
+            return None
+        _, kinds = expected_of(df)
         ctx.count(("e2e", mode, fname, ff, tuple(colnames), nrow), True, "e2e/" + mode,
                   sample={"mode": mode, "name": fname, "columns": colnames, "comment": comment})
-        # oracle
-        if list(df2.columns) != colnames or len(df2) != nrow:
-            ctx.finding("e2e/shape_or_names", "column names or row count changed in the round trip", {**case, "got_columns": list(df2.columns), "got_rows": len(df2)})
-        else:
-            digits = int(re.search(r"\.(\d+)", ff).group(1))
-            for cn in colnames:
-                a, b = df[cn].values, df2[cn].values
-                if isinstance(cols[cn][0], str):
-                    if list(a) != list(b):
-                        ctx.finding("e2e/text_changed", "text values changed in the round trip", {**case, "column": cn, "wrote": list(a)[:3], "read": list(b)[:3]})
-                elif isinstance(cols[cn][0], int):
-                    if not np.array_equal(a, b):
-                        ctx.finding("e2e/int_changed", "integer values changed in the round trip", {**case, "column": cn})
-                else:
-                    a = np.asarray(a, dtype=float)
-                    b = np.asarray(b, dtype=float)
-                    tol = 0.5000001 * 10.0 ** (-digits) * (np.maximum(1.0, 10.0 ** np.floor(np.log10(np.abs(a) + 1e-300))) if ff.endswith("e") else 1.0)
-                    tol = tol + 4 * np.spacing(np.abs(a))   # the decimal text is read back to the nearest double
-                    if not np.all(np.abs(a - b) <= tol):
-                        ctx.finding("e2e/float_precision", "numeric values differ by more than the float format precision", {**case, "column": cn, "wrote": a[:3].tolist(), "read": b[:3].tolist()})
-        # the table body through the model: the column-name line as the reader splits it, records tokenised
-        # by the model against what the real reader returned, and the model's writer against the written text
-        if raw is not None and list(df2.columns) == colnames and len(df2) == nrow:
-            lines = raw.split("\n")
-            nh = 0
-            while nh < len(lines) and lines[nh].startswith("#"):
-                nh += 1
-            colline, blines = lines[nh], lines[nh + 1: nh + 1 + nrow]
-            reqs.append(f"cols [{enc(colline + chr(10))}]")
-            checks.append(("cols", list(df2.columns), {**case, "line": colline}))
-            for r in sorted(rng.sample(range(nrow), min(nrow, 3))):
-                got = []
-                for cn in colnames:
-                    v = df2[cn].values[r]
-                    got.append(("t", str(v)) if isinstance(cols[cn][0], str) else ("n", float(v)))
-                reqs.append(f"parse [{enc(blines[r])}]")
-                checks.append(("parse", got, {**case, "line": blines[r], "row": r}))
-                ctx.count(("body", blines[r]), any(ch in blines[r] for ch in '"'), "body/" + ("quoted" if '"' in blines[r] else "plain"))
-        for k, v in comment.items():
-            if c2.get(k) != v:
-                ctx.finding("e2e/comment_not_returned", "a supplied header comment does not come back unchanged", {**case, "key": k, "got": c2.get(k)})
-        # nothing but the caller's comments, the counts and the system information comes back: a key supplied to an
-        # EARLIER call in this process (or any other stray key) is a header comment the caller did not supply for this file
-        stray = sorted(k for k in c2 if k not in comment and k not in RESERVED and not re.fullmatch(r"comment_\d+", k))
-        if stray:
-            ctx.finding("e2e/comment_not_supplied", "the comment dictionary holds keys that were not supplied for this file",
-                        {**case, "stray_keys": stray[:5], "values": [c2[k] for k in stray[:5]]})
-        if c2.get("nrow") != str(nrow) or c2.get("ncol") != str(len(colnames)):
-            ctx.finding("e2e/nrow_ncol", "recorded nrow/ncol are not returned", {**case, "got": [c2.get("nrow"), c2.get("ncol")]})
+        ctx.count(("e2e-mix", it), True, "e2e/columns/" + "+".join(sorted(set(kinds.values()))))
+        if oracle(case, df, comment, ff, df2, c2) and raw is not None:
+            body_correspondence(case, df, df2, raw, c2)
+        return df2
+
+    # ---------------- (4a) corpus: minimal cases of every class of input that once escaped or uncovered a defect, replayed first
+    # whatever the seed (harness/../corpus/C09/*.json: columns with dtypes, comment, mode, float format, optionally a second write
+    # of a frame derived from the frame read back)
+    for k, cfile in enumerate(sorted((C.ROOT / "corpus" / PID).glob("*.json"))):
+        spec = json.loads(cfile.read_text())
+        for mode in spec.get("modes", ["plain", "zip.csv", "archive"]):
+            df = pd.DataFrame({cn: (np.array(c["values"], dtype=c["dtype"]) if c.get("dtype") else np.array(c["values"], dtype=object))
+                               for cn, c in spec["columns"].items()})
+            fname = {"plain": "c.csv", "zip.csv": "c.csv", "zip.zip": "c.zip", "zip.noext": "c", "zip.dots": "c.v2.csv", "archive": "sub/c.csv"}[mode]
+            back = run_e2e(("corpus", k, mode), df, spec.get("comment", {}), mode, spec.get("float_format", "%0.5f"), fname, "corpus:" + cfile.stem, False)
+            then = spec.get("then")
+            if back is not None and then:
+                d2 = back.iloc[then["keep_rows"]] if "keep_rows" in then else back
+                if then.get("reset_index"):
+                    d2 = d2.reset_index(drop=True)
+                for cn, c in then.get("add_columns", {}).items():
+                    d2 = d2.copy()
+                    d2[cn] = c["values"]
+                if then.get("drop_columns"):
+                    d2 = d2.drop(columns=then["drop_columns"])
+                run_e2e(("corpus2", k, mode), d2, then.get("comment", {}), mode, spec.get("float_format", "%0.5f"), fname, "corpus:" + cfile.stem + ":derived", False)
+
+    for it in range(ctx.scale(150, 1500)):
+        df, colnames = gen_frame()
+        df, hist = derive(df)
+        comment = {gen_key(rng): gen_val(rng) for _ in range(rng.randint(0, 3))}
+        mode = rng.choice(["plain", "zip.csv", "zip.zip", "zip.noext", "zip.dots", "archive"])
+        ff = rng.choice(fmts)
+        base = rng.choice(["data", "d_1", "Run-A"])
+        fname = {"plain": base + ".csv", "zip.csv": base + ".csv", "zip.zip": base + ".zip", "zip.noext": base,
+                 "zip.dots": base + ".v2.csv", "archive": "sub/folder/" + base + ".csv"}[mode]
+        run_e2e(it, df, comment, mode, ff, fname, hist, rng.random() < 0.5)
 
     # ---------------- (5) archives holding several members, some names being suffixes of others
     for it in range(ctx.scale(40, 400)):
@@ -341,6 +533,274 @@ def body(ctx):
         except Exception as e:  # noqa
             ctx.finding("e2e/archive_multi/cannot_read_back", "a member written into an archive cannot be read back",
                         {"members": members, "error": f"{type(e).__name__}: {e}"[:300]})
+
+    # ---------------- (6) sessions: several writes and reads in one process and one directory / one archive. Frames are fresh or
+    # DERIVED FROM A FRAME THAT read_csv RETURNED EARLIER (rows selected, a column added or dropped, rows doubled, columns
+    # reordered, a plain copy): whatever an object carries along from its past (attributes, caches keyed by name, earlier
+    # comments) must not show in the file written now. Comment dictionaries are fresh, re-used objects, or earlier ones with
+    # one value changed. Names are new or re-used (the later write replaces the file); rejected calls (missing file, member
+    # already in the archive) must leave the files written before readable as they were.
+    sess = work / "sess"
+
+    def derive_from_read(d):
+        d = d.copy() if rng.random() < 0.3 else d
+        how = rng.choice(["rows", "head", "addcol", "dropcol", "double", "reorder", "asis", "rows+addcol"])
+        if "rows" in how and len(d) > 1:
+            mask = [rng.random() < 0.5 for _ in range(len(d))]
+            if not any(mask):
+                mask[0] = True
+            d = d.loc[mask]
+            if rng.random() < 0.5:
+                d = d.reset_index(drop=True)
+        if how == "head" and len(d) > 1:
+            d = d.head(rng.randint(1, len(d) - 1))
+        if "addcol" in how:
+            cn = rng.choice(["extra", "flag", "q-mm", "n 2"])
+            if cn not in d.columns:
+                d = d.copy()
+                d[cn] = gen_column(rng.choice(["float", "int", "text"]), len(d))[0]
+        if how == "dropcol" and d.shape[1] > 1:
+            d = d.drop(columns=[rng.choice(list(d.columns))])
+        if how == "double":
+            d = pd.concat([d, d], ignore_index=True)
+        if how == "reorder" and d.shape[1] > 1:
+            d = d[list(d.columns)[::-1]]
+        return d, how
+
+    for it in range(ctx.scale(60, 600)):
+        shutil.rmtree(sess, ignore_errors=True)
+        sess.mkdir()
+        use_archive = rng.random() < 0.3
+        read_frames, comments_used, written = [], [], {}     # written: name -> (frame, comment, ff, compress)
+        steps = []
+        arcfile = sess / "arc.zip"
+        for step in range(rng.randint(2, 4)):
+            if read_frames and rng.random() < 0.75:
+                df, how = derive_from_read(rng.choice(read_frames))
+                how = "derived:" + how
+            else:
+                df, _ = gen_frame()
+                how = "fresh"
+            r = rng.random()
+            if comments_used and r < 0.25:
+                comment = rng.choice(comments_used)                     # the same object again
+            elif comments_used and r < 0.5:
+                comment = dict(rng.choice(comments_used))
+                if comment:
+                    comment[rng.choice(sorted(comment))] = gen_val(rng)   # one value changed
+                else:
+                    comment[gen_key(rng)] = gen_val(rng)
+            else:
+                comment = {gen_key(rng): gen_val(rng) for _ in range(rng.randint(0, 3))}
+            comments_used.append(comment)
+            supplied = dict(comment)
+            ff = rng.choice(fmts)
+            base = rng.choice(["a", "b", "a"]) if not use_archive else rng.choice(["x/a.csv", "x/b.csv", "a.csv", "y/x/a.csv"])
+            compress = (not use_archive) and rng.random() < 0.5
+            fname = base if use_archive else base + rng.choice([".csv", ".csv", ".zip" if compress else ".txt", ""])
+            steps.append({"step": step, "frame": how, "name": fname, "compress": compress, "shape": list(df.shape), "comment": supplied})
+            case = {"session": steps[:], "archive": use_archive, "float_format": ff, "columns": [str(c) for c in df.columns]}
+            rejected = False
+            try:
+                if use_archive:
+                    with zipfile.ZipFile(arcfile, "a") as arc:
+                        if fname in arc.namelist():
+                            # a member of that name is there: the call is refused, and must leave the archive as it was
+                            try:
+                                csv.write_csv(df, fname, comment, src, archive=arc, float_format=ff, write_sys_info=False)
+                            except ValueError:
+                                pass
+                            rejected = True
+                        else:
+                            csv.write_csv(df, fname, comment, src, archive=arc, float_format=ff, write_sys_info=False)
+                    if not rejected:
+                        written[fname] = (df, supplied, ff)
+                    with zipfile.ZipFile(arcfile, "r") as arc:
+                        df2, c2 = csv.read_csv(fname, archive=arc)
+                else:
+                    # a stale candidate that read_csv would prefer (the name itself, <stem>.gz) would make the read ambiguous:
+                    # one storage mode per name within a session, so that the file read is the file written
+                    stem = Path(fname).stem
+                    clash = [n for n in written if Path(n).stem == stem]
+                    if clash:
+                        fname = clash[0]
+                        compress = written[fname][3]
+                        steps[-1].update(name=fname, compress=compress)
+                    csv.write_csv(df, sess / fname, comment, src, compress=compress, float_format=ff, write_sys_info=rng.random() < 0.3)
+                    written[fname] = (df, supplied, ff, compress)
+                    if rng.random() < 0.2:
+                        # a refused read in between (no such file) changes nothing
+                        try:
+                            csv.read_csv(sess / "nosuchfile.csv")
+                        except ValueError:
+                            pass
+                    df2, c2 = csv.read_csv(sess / fname)
+            except Exception as e:  # noqa
+                ctx.finding("session/cannot_read_back", "a file written by write_csv in a sequence of calls cannot be read back",
+                            {**case, "error": f"{type(e).__name__}: {e}"[:300]})
+                break
+            if comment != supplied:
+                ctx.finding("session/caller_comment_modified", "write_csv changed the caller's comment dictionary", {**case, "now": comment})
+            wdf, wcomment, wff = written[fname][:3]
+            ctx.count(("sess", it, step), True, "session/" + ("archive" if use_archive else "files") + "/" + ("rejected" if rejected else how.split(":")[0]),
+                      sample=case if step == 1 else None)
+            oracle({**case, "mode": "session"}, wdf, wcomment, wff, df2, c2)
+            read_frames.append(df2)
+        else:
+            # at the end every file of the session still holds what was last written under its name
+            for fname, w in written.items():
+                try:
+                    if use_archive:
+                        with zipfile.ZipFile(arcfile, "r") as arc:
+                            df2, c2 = csv.read_csv(fname, archive=arc)
+                    else:
+                        df2, c2 = csv.read_csv(sess / fname)
+                except Exception as e:  # noqa
+                    ctx.finding("session/cannot_read_back", "a file written earlier in the session cannot be read at its end",
+                                {"session": steps, "name": fname, "error": f"{type(e).__name__}: {e}"[:300]})
+                    continue
+                oracle({"session": steps, "mode": "session-end", "name": fname, "archive": use_archive, "float_format": w[2]}, w[0], w[1], w[2], df2, c2)
+
+    # ---------------- (7) number formatting on its own: what `float_format % x` (the operator to_csv applies to every float cell)
+    # gives, against the model, at the branch values first: exact ties at the last printed decimal, values that round up into a new
+    # digit, zeros of both signs, subnormal and huge magnitudes, integers around 2**53 and 2**63
+    def num_case(ff, x):
+        digits = int(re.search(r"\.(\d+)", ff).group(1))
+        num, den = abs(x).as_integer_ratio()
+        neg = 1 if math.copysign(1.0, x) < 0 else 0
+        reqs.append(f"{'fmte' if ff.endswith('e') else 'fmtf'} {digits} {neg} {num} {den}")
+        checks.append(("fmt", ff % x, {"float_format": ff, "value": x.hex()}))
+        ctx.count(("num", ff, x), True, "number/" + ("exp" if ff.endswith("e") else "fixed"))
+
+    specials = [0.0, -0.0, 0.5, 1.5, 2.5, -0.5, 0.125, 0.375, 0.0625, 9.5, 99.5, 0.995, 9.995, 999999.5, 0.000005, 0.0000049999, 5e-324, 2.2250738585072014e-308,
+                1e22, 1e23, 1.7976931348623157e308, 123456789.125, 0.1, 0.2, 0.3, 1e-5, 1e-10, 9.999999995, 99999.999995, 0.9999999949999999]
+    all_fmts = fmts + ["%0.0f", "%0.1f", "%0.3f", "%0.0e", "%0.1e", "%0.3e", "%0.12e"]
+    for x in specials:
+        for ff in all_fmts:
+            if abs(x) < 1e300 or ff.endswith("e"):
+                num_case(ff, x)
+                num_case(ff, -x)
+    for it in range(ctx.scale(300, 3000)):
+        ff = rng.choice(all_fmts)
+        digits = int(re.search(r"\.(\d+)", ff).group(1))
+        r = rng.random()
+        if r < 0.3:
+            # an exact tie, or one ulp off a tie, at the last printed decimal
+            x = (rng.randint(-2000, 2000) + 0.5) / 2.0 ** rng.choice([0, 1, 2, 3]) if digits <= 3 else (rng.randint(-2000, 2000) * 2 + 1) / 2.0 ** (digits + 1)
+            x = rng.choice([x, math.nextafter(x, math.inf), math.nextafter(x, -math.inf)])
+        elif r < 0.6:
+            x = rng.choice([1, -1]) * 10 ** rng.uniform(-12, 12) * rng.random()
+        elif r < 0.8:
+            x = rng.choice([1, -1]) * float(10 ** rng.randint(1, 15) - rng.choice([1, 5, 50])) / 10 ** rng.randint(0, 12)   # 9.99…5: carries
+        else:
+            x = rng.choice([1, -1]) * 10 ** rng.uniform(-320, 300 if ff.endswith("e") else 40)
+        num_case(ff, x)
+    for z in [0, 1, -1, 9, 10, 99, 100, 2 ** 53 - 1, 2 ** 53, 2 ** 53 + 1, -(2 ** 53) - 1, 2 ** 63 - 1, -2 ** 63, 2 ** 64 - 1, 10 ** 18 + 7] + \
+            [rng.randint(-10 ** rng.randint(1, 19), 10 ** rng.randint(1, 19)) for _ in range(ctx.scale(50, 500))]:
+        reqs.append(f"fmti {z}")
+        checks.append(("fmt", str(z), {"integer": str(z)}))
+        reqs.append(f"pint [{enc(str(z))}]")
+        checks.append(("pint", z, {"text": str(z)}))
+        ctx.count(("int", z), True, "number/integer")
+
+    # ---------------- (8) directory histories: any sequence of writes (plain / compressed, under names that share a stem, with the
+    # source file missing now and then) and reads in ONE directory, real code against the model's state machine; where the model's
+    # theorems say the read must return the frame just written (no older file that read_csv prefers) the real code is held to it
+    fsdir = work / "fs"
+    name_pool = ["d.csv", "d.zip", "d", "d.txt", "a.b.csv", "a.b", "d.csv.gz", "d.gz", "e.dat"]
+    nosrc = work / "missing_script.py"
+    small = pd.DataFrame({"v": [1.5, 2.5]})
+    for it in range(ctx.scale(120, 1200)):
+        shutil.rmtree(fsdir, ignore_errors=True)
+        fsdir.mkdir()
+        ops, outs, hist = [], [], []
+        last_write = None
+        for k in range(rng.randint(2, 7)):
+            name = rng.choice(name_pool)
+            if rng.random() < 0.55:
+                compress, has_src, ident = rng.random() < 0.5, rng.random() < 0.9, f"w{k}"
+                before = {p.name for p in fsdir.iterdir()}
+                try:
+                    csv.write_csv(small, fsdir / name, {"id": ident}, src if has_src else nosrc, compress=compress, write_sys_info=False)
+                    accepted = True
+                except ValueError:
+                    accepted = False
+                ops.append(f"[{enc('w')};{enc(name)};{enc('1' if compress else '0')};{enc('1' if has_src else '0')};{enc(ident)}]")
+                hist.append({"op": "write", "name": name, "compress": compress, "source_exists": has_src, "id": ident})
+                if accepted != has_src:
+                    ctx.disagree("C09/directory: write_csv accepted / refused a call otherwise than the model", {"history": hist[:]})
+                stem = Path(name).stem
+                stale = (compress and Path(name).suffix != ".zip" and name in before) or (compress and stem + ".gz" in before and name != stem + ".gz")
+                readable = Path(name).suffix != ".gz" and (compress or Path(name).suffix != ".zip")
+                last_write = (name, ident) if accepted and readable and not stale else None
+            else:
+                try:
+                    _, c2 = csv.read_csv(fsdir / name)
+                    out = "t[" + enc(c2.get("id", "?")) + "]"
+                except ValueError as e:
+                    out = "notFound" if "Cannot find valid file" in str(e) else "wrongKind"
+                except KeyError:
+                    out = "noMember"
+                except Exception:  # noqa
+                    out = "wrongKind"
+                ops.append(f"[{enc('r')};{enc(name)}]")
+                outs.append(out)
+                hist.append({"op": "read", "name": name, "outcome": out if not out.startswith("t[") else "id=" + dec(out[1:])})
+                if last_write and last_write[0] == name and out != "t[" + enc(last_write[1]) + "]":
+                    ctx.finding("directory/written_frame_not_read_back", "read_csv does not return the frame write_csv just stored under that name "
+                                "(no older file of the same stem that read_csv prefers is present)", {"history": hist[:]})
+                if out == "noMember":
+                    ctx.finding("directory/zip_member_missing", "read_csv opens a zip file written by write_csv and does not find its member", {"history": hist[:]})
+        listing = []
+        for p_ in sorted(fsdir.iterdir()):
+            if zipfile.is_zipfile(p_):
+                with zipfile.ZipFile(p_) as z:
+                    listing.append("z[" + enc(p_.name) + "]" + encs(z.namelist()))
+            else:
+                listing.append("p[" + enc(p_.name) + "]")
+        reqs.append("fs " + " ".join(ops))
+        checks.append(("fs", (sorted(listing), outs), {"history": hist}))
+        ctx.count(("fs", tuple(ops)), True, "directory/history", sample={"history": hist} if it < 2 else None)
+
+    # ---------------- (9) archive histories: member writes (a name already present is refused and must change nothing) and reads
+    # (a name never written fails) in one caller-supplied archive
+    arcdir = work / "arch"
+    member_pool = ["a.csv", "x/a.csv", "y/x/a.csv", "b.csv", "x/b.csv", "xa.csv"]
+    for it in range(ctx.scale(80, 800)):
+        shutil.rmtree(arcdir, ignore_errors=True)
+        arcdir.mkdir()
+        ops, outs, hist = [], [], []
+        for k in range(rng.randint(2, 7)):
+            m = rng.choice(member_pool)
+            if rng.random() < 0.55:
+                ident = f"w{k}"
+                with zipfile.ZipFile(arcdir / "arc.zip", "a") as arc:
+                    try:
+                        csv.write_csv(small, m, {"id": ident}, src, archive=arc, write_sys_info=False)
+                        out = "[" + enc(ident) + "]"
+                    except ValueError:
+                        out = "none"
+                ops.append(f"[{enc('w')};{enc(m)};{enc(ident)}]")
+            else:
+                out = "none"
+                if (arcdir / "arc.zip").exists():
+                    with zipfile.ZipFile(arcdir / "arc.zip", "r") as arc:
+                        try:
+                            _, c2 = csv.read_csv(m, archive=arc)
+                            out = "[" + enc(c2.get("id", "?")) + "]"
+                        except KeyError:
+                            out = "none"
+                ops.append(f"[{enc('r')};{enc(m)}]")
+            outs.append(out)
+            hist.append({"op": "write" if dec(ops[-1].split(";")[0][1:]) == "w" else "read", "member": m, "outcome": out if out == "none" else dec(out)})
+        members, holds = [], []
+        if (arcdir / "arc.zip").exists():
+            with zipfile.ZipFile(arcdir / "arc.zip", "r") as arc:
+                members = arc.namelist()
+                holds = [csv.read_csv(m, archive=arc)[1].get("id", "?") for m in members]
+        reqs.append("arc " + " ".join(ops))
+        checks.append(("arc", (members, holds, outs), {"history": hist}))
+        ctx.count(("arc", tuple(ops)), True, "archive/history")
 
     # ---------------- correspondence
     replies = lean.ask(reqs)
@@ -370,6 +830,8 @@ def body(ctx):
                 for f, (t, v) in zip(model, impl):
                     if t == "t":
                         ok = ok and f == v
+                    elif t == "i":
+                        ok = ok and re.fullmatch(r"-?\d+", f) is not None and int(f) == v
                     else:
                         try:
                             fv = float(f)
@@ -381,7 +843,65 @@ def body(ctx):
             else:
                 # second leg: the model's writer reproduces the written text from the fields
                 extra_reqs.append(f"row {encs(model)}")
-                extra_checks.append((case["line"], case))
+                extra_checks.append((case["line"], case, "record"))
+        elif kind == "fmt":
+            if dec(rep) != impl:
+                ctx.disagree("C09/number format: the text written differs from the model's formatting of the exact value", {**case, "impl": impl, "model": dec(rep)})
+        elif kind == "pint":
+            if rep != str(impl):
+                ctx.disagree("C09/integer cell: the integer read back differs from the model's reading of the written text", {**case, "impl": str(impl), "model": rep})
+        elif kind == "pnum":
+            ok = rep != "none"
+            if ok:
+                y, b = Fraction(rep), Fraction(impl)
+                ok = abs(y - b) <= 2 * Fraction(math.ulp(impl))     # the reader rounds the decimal text to a neighbouring double
+                ok = ok and (y == 0 or (y > 0) == (math.copysign(1.0, impl) > 0))
+            if not ok:
+                ctx.disagree("C09/float cell: the number read back is not the double next to the exact value of the written text", {**case, "impl": repr(impl), "model": rep})
+        elif kind == "rfile":
+            toks = rep.split(" ")
+            ok = rep != "none" and len(toks) == 3 + len(impl[3])
+            if ok:
+                ok = decs(toks[0]) == impl[0] and decs(toks[1]) == impl[1] and decs(toks[2]) == impl[2]
+                mrows = [decs(t) for t in toks[3:]]
+                for mr, ir in zip(mrows, impl[3]):
+                    ok = ok and len(mr) == len(ir)
+                    if not ok:
+                        break
+                    for f, (t, v) in zip(mr, ir):
+                        if t == "t":
+                            ok = ok and f == v
+                        elif t == "i":
+                            ok = ok and re.fullmatch(r"-?\d+", f) is not None and int(f) == v
+                        else:
+                            try:
+                                ok = ok and (float(f) == v or abs(float(f) - v) <= 2 * np.spacing(abs(v)))
+                            except ValueError:
+                                ok = False
+            if not ok:
+                ctx.disagree("C09/whole file: the model's reader and read_csv differ on a written file (comment dictionary, names or records)",
+                             {k: v for k, v in {**case, "impl": impl[:3], "model": toks[:3]}.items() if k != "text"})
+            else:
+                # second leg: the model's writer reproduces the file text from the header lines, names and fields it read
+                hl = []
+                for l in case["text"].split("\n"):
+                    if not l.startswith("#"):
+                        break
+                    hl.append(l)
+                extra_reqs.append("wfile " + encs(hl) + " " + " ".join(toks[2:]))
+                extra_checks.append((case["text"], {k: v for k, v in case.items() if k != "text"}, "file"))
+        elif kind == "fs":
+            toks = rep.split(" ")
+            listing = sorted(re.findall(r"[pz]\[[^\]]*\](?:\[[^\]]*\])?", toks[0][1:-1]))
+            if listing != impl[0] or toks[1:] != impl[1]:
+                ctx.disagree("C09/directory history: files present or read outcomes differ between the real code and the model",
+                             {**case, "impl": [impl[0], impl[1]], "model": [listing, toks[1:]]})
+        elif kind == "arc":
+            toks = rep.split(" ")
+            # members in order, what each holds at the end (the model's specification: the first write of that name), outcomes
+            if decs(toks[0]) != impl[0] or decs(toks[1]) != impl[1] or toks[2:] != impl[2]:
+                ctx.disagree("C09/archive history: members, their final content or the outcomes differ between the real code and the model",
+                             {**case, "impl": list(impl), "model": [decs(toks[0]), decs(toks[1]), toks[2:]]})
         elif kind == "check":
             if rep != impl:
                 ctx.disagree("C09/_check_name: implementation and model differ", {**case, "impl": impl, "model": rep})
@@ -392,12 +912,13 @@ def body(ctx):
             # the model's reader must open what the writer created (the real reader succeeded above)
             if opened[0] == "none":
                 ctx.disagree("C09/read target: model cannot open the written file", {**case, "model": rep})
-    for rep, (line, case) in zip(lean.ask(extra_reqs) if extra_reqs else [], extra_checks):
+    for rep, (line, case, what) in zip(lean.ask(extra_reqs) if extra_reqs else [], extra_checks):
         if dec(rep) != line:
-            ctx.disagree("C09/record writer: the model's quoting differs from the text to_csv wrote", {**case, "impl": line, "model": dec(rep)})
+            ctx.disagree("C09/record writer: the model's quoting differs from the text to_csv wrote" if what == "record" else
+                         "C09/whole file: the model's writer does not reproduce the text write_csv produced", {**case, "impl": line[:400], "model": dec(rep)[:400]})
     shutil.rmtree(work, ignore_errors=True)
     ctx.extra["rule"] = __doc__.split("Cases:")[1].strip()
-    ctx.assumptions += ["DataFrame.to_csv / pandas.read_csv are external: their record quoting and tokenising are modelled (writeRow / parseRow / splitCols) and compared on the written text; number formatting, type inference, zipfile and the file system are exercised end-to-end only",
+    ctx.assumptions += ["DataFrame.to_csv / pandas.read_csv are external: their record quoting and tokenising (writeRow / parseRow / splitCols) and number formatting / parsing (fmtFixed / fmtExp / fmtInt / parseSci / parseInt over exact rationals) are modelled and compared on the written text and the values read; type inference, zipfile and the file system are exercised end-to-end and through the directory / archive state machines",
                         "regular expressions are modelled for single-line ASCII header elements"]
 
 
